@@ -37,8 +37,9 @@ class Skeleton(object):
         self.cons = []
         VI = C.VI
         for i, k in enumerate(self.spec):
-            if k in ('BIN', 'PRE', 'ASG', 'SEQ'):
-                names = {'BIN': BIN_TOKENS, 'PRE': PRE_TOKENS, 'ASG': ASG_TOKENS, 'SEQ': SEQ_TOKENS}[k]
+            if k in ('BIN', 'PRE', 'ASG', 'SEQ', 'BIN13'):
+                names = {'BIN': BIN_TOKENS, 'PRE': PRE_TOKENS, 'ASG': ASG_TOKENS, 'SEQ': SEQ_TOKENS,
+                         'BIN13': [t for t in BIN_TOKENS if t != 'Minus']}[k]
                 v = z3.BitVec('slot%d_%s' % (i, k), 64)
                 self.cons.append(z3.Or(*[v == VI('Token', n) for n in names]))
                 self.slots.append((i, k, v))
@@ -93,7 +94,7 @@ class Skeleton(object):
         return ' '.join(out)
 
     def text(self):
-        return ' '.join({'BIN': '◻', 'PRE': '◇', 'ASG': '◈', 'SEQ': '▫'}.get(k, k[3:] if k.startswith('id:') else k[4:] if k.startswith('tok:') else
+        return ' '.join({'BIN': '◻', 'BIN13': '◻', 'PRE': '◇', 'ASG': '◈', 'SEQ': '▫'}.get(k, k[3:] if k.startswith('id:') else k[4:] if k.startswith('tok:') else
                         {'int': '1', 'float': '2.5', 'bool': 'true', 'str': '"s"'}.get(k, k)) for k in self.spec)
 
 
@@ -119,7 +120,7 @@ def spec_prec(C, var):
 
 
 def expected_op(C, kind, slotvar):
-    table = {'BIN': TOK2OP_BIN, 'PRE': TOK2OP_PRE, 'ASG': TOK2OP_ASG, 'SEQ': TOK2OP_SEQ}[kind]
+    table = {'BIN': TOK2OP_BIN, 'BIN13': TOK2OP_BIN, 'PRE': TOK2OP_PRE, 'ASG': TOK2OP_ASG, 'SEQ': TOK2OP_SEQ}[kind]
     r = z3.BitVecVal(9999, 64)
     for tk, op in table.items():
         r = z3.If(slotvar == C.VI('Token', tk), z3.BitVecVal(C.VI('Operator', op), 64), r)
